@@ -1686,6 +1686,11 @@ func ruleLinkPair(c *Ctx, rule string) {
 				if !isLocal || cal != tbMethod(c, cal.Name()) {
 					continue
 				}
+				// a write into a bucket reached through the OTHER field is the opposite side itself, written in
+				// place (its helper expanded here)
+				if len(call.Common().Args) > 0 && derivesFromField(call.Common().Args[0], otherFld, 0) {
+					continue
+				}
 				n++
 				name := FnName(fn)
 				c.Analysed(name)
@@ -1866,6 +1871,50 @@ func ruleLinkCleanup(c *Ctx, rule string) {
 			}
 		}
 		if remote == nil {
+			// written in place: the entry is deleted from a bucket reached through the other field
+			var inline ssa.CallInstruction
+			for _, call := range callsIn(fn) {
+				cal, _ := calleeOf(call.Common())
+				if cal != nil && cal == tbMethod(c, "DeleteListEntry") && len(call.Common().Args) > 0 && derivesFromField(call.Common().Args[0], otherFld, 0) {
+					inline = call
+				}
+			}
+			if inline != nil {
+				l := innermostLoop(loopsOf(fn), inline.Block())
+				okIn, whyIn := l != nil, "the remote removal is not applied to every link"
+				if l != nil {
+					// within one round of the loop the removal is only by-passed where something is missing
+					fiF := factsOf(fn)
+					ps := &pathSearch{fn: fn, fi: fiF, start: l.Header, stop: func(in ssa.Instruction) bool { return in == ssa.Instruction(inline) }}
+					first := true
+					ps.target = func(in ssa.Instruction) bool {
+						if in.Block() == l.Header && in == l.Header.Instrs[0] {
+							if first {
+								first = false
+								return false
+							}
+							return true
+						}
+						return false
+					}
+					ps.skipEdge = func(from, to *ssa.BasicBlock) bool {
+						if !l.Blocks[to] {
+							return true
+						}
+						for f := range fiF.edgeFacts(from, to) {
+							if f.Kind == "nonnil" && !f.Pol && !isErrorType(f.V.Type()) {
+								return true
+							}
+						}
+						return false
+					}
+					if ps.run() {
+						okIn, whyIn = false, "a round of the loop can go by without removing the opposite side's entry although nothing was found missing"
+					}
+				}
+				c.Check(okIn, rule, name, p.Pos(inline.Pos()), "for every link the opposite side's entry is removed unconditionally", whyIn)
+				continue
+			}
 			c.Bad(rule, name, p.Pos(fn.Pos()), "the remote side is not touched when an entity is deleted")
 			continue
 		}
